@@ -2,7 +2,9 @@
    (work/C01/Cases_k.v): the model is run on the recorded input and compared with what the Go
    implementation did (operation results, Size(), death flag, the COMPLETE store as bytes after
    every incarnation).  Imports only Model.v. *)
-From Verif Require Import Common.Base C01.Model.
+From Verif Require Import Common.Base.
+From Verif Require Export C01.Model.
+From Verif Require Import C01.Spec C01.Checker.
 
 (* ---- wire forms ----------------------------------------------------------------------------- *)
 (* op: (0,id,_) Offer | (1,_,_) Read | (2,k,o) Complete k, o: 0 ok 1 failed 2 shutdown | (3,_,_) Shutdown *)
@@ -24,6 +26,7 @@ Definition code_of_res (x : res * Z) : rescode :=
   match r with
   | ROffer a => (0, if a then 1%N else 0%N, 0%N, z)
   | ROfferWait => (0, 2%N, 0%N, z)
+  | ROfferTooLarge => (0, 3%N, 0%N, z)
   | RRead i r => (1, i, r, z)
   | RStopped => (2, 0%N, 0%N, z)
   | RBlocked => (3, 0%N, 0%N, z)
@@ -100,6 +103,23 @@ Definition istore := (option N * option N * option (list N) * option N * list (N
 Definition store_of (i : istore) : store :=
   let '(r, w, d, s, items) := i in mkStore r w d s items.
 
+(* queuebatch.Config on the wire: (enabled, wait, sizer, size, block, storage, consumers, batch) *)
+Definition qcfg_t := (bool * bool * nat * Z * bool * option nat * Z * option (Z * Z * Z))%type.
+Definition qcfg_of (x : qcfg_t) : qconfig :=
+  let '(e, w, sz, n, bl, st, c, bt) := x in mkQConfig e w sz n bl st c bt.
+Definition qcfg_eqb (a b : qconfig) : bool :=
+  Bool.eqb (q_enabled a) (q_enabled b) && Bool.eqb (q_wait a) (q_wait b) && Nat.eqb (q_sizer a) (q_sizer b) &&
+  Z.eqb (q_size a) (q_size b) && Bool.eqb (q_block a) (q_block b) && option_eqb Nat.eqb (q_storage a) (q_storage b) &&
+  Z.eqb (q_consumers a) (q_consumers b) &&
+  option_eqb (fun x y => Z.eqb (fst (fst x)) (fst (fst y)) && Z.eqb (snd (fst x)) (snd (fst y)) && Z.eqb (snd x) (snd y)) (q_batch a) (q_batch b).
+Definition qkind_eqb (a b : qkind) : bool :=
+  match a, b with
+  | QMemory c1 w1 b1 n1, QMemory c2 w2 b2 n2 => Z.eqb c1 c2 && Bool.eqb w1 w2 && Bool.eqb b1 b2 && Z.eqb n1 n2
+  | QPersistent c1 b1 s1 g1 o1 n1, QPersistent c2 b2 s2 g2 o2 n2 =>
+      Z.eqb c1 c2 && Bool.eqb b1 b2 && Nat.eqb s1 s2 && Nat.eqb g1 g2 && Nat.eqb o1 o2 && Z.eqb n1 n2
+  | _, _ => false
+  end.
+
 Inductive vcase :=
 | CHist (cap : Z) (rs bl : bool) (h : list (list opcode * option nat)) (obs : list iobs)
 | CHistFrom (cap : Z) (rs bl : bool) (init : istore) (h : list (list opcode * option nat)) (obs : list iobs)
@@ -110,6 +130,10 @@ Inductive vcase :=
 | CFin (f1 f2 f3 : bool) (init : istore) (cdi0 : list N) (index : N) (st' : ostore) (cdi' : list N) (cls : nat)
     (* itemDispatchingFinish on a queue whose storage client fails the chosen calls: store afterwards, in-memory
        dispatched list, class of the returned error (0 nil, 1 delete failed, 2 list update failed) *)
+| CQCfg (maxint ncpu : Z) (q : qcfg_t) (b : bool * Z * Z * Z) (r : qcfg_t)
+    (* the real newQueueBatchConfig(q, b) returned r *)
+| CQKind (signal owner : nat) (q : qcfg_t) (k : qkind)
+    (* the real newQueueBatch built this queue for configuration q of exporter [owner], signal [signal] *)
 | CDone (pieces : list nat) (cls : nat)
     (* refCountDone fed with the piece outcomes (0 ok, 1 failed, 2 shutdown) in completion order; class received by the request's Done *)
 | CSend (rs : list nat) (stop : option nat) (tail : nat) (cls attempts : nat).
@@ -153,6 +177,10 @@ Definition check_case (c : vcase) : bool :=
   | CFin f1 f2 f3 init cdi0 index st' cdi' cls =>
       let '(st1, v1, k) := finish_with_errors f1 f2 f3 (mkVol 0 0 cdi0 0 false 1 0) index (store_of init) in
       ostore_eqb (enc_store st1) st' && list_eqb N.eqb (cdi v1) cdi' && Nat.eqb k cls
+  | CQCfg maxint ncpu q b r =>
+      let '(be, bf, bmin, bmax) := b in
+      qcfg_eqb (newQueueBatchConfig maxint ncpu (qcfg_of q) (mkBConfig be bf bmin bmax)) (qcfg_of r)
+  | CQKind sg ow q k => qkind_eqb (queue_of sg ow (qcfg_of q)) k
   | CDone pieces cls => Nat.eqb (outcome_code (combine_outcomes (map outcome_of_code pieces))) cls
   | CSend rs stop tail cls attempts =>
       let '(e, k) := send_model (map attempt_of rs) stop (send_end_of tail) 0 in
@@ -164,6 +192,8 @@ Inductive vout :=
 | OHist (obs : list iobs) (evs : list event)
 | ODec (idx : N + derr) (arr : list N + derr)
 | OEnc (b1 b2 : list N)
+| OQCfg (r : qconfig)
+| OQKind (k : qkind)
 | OFin (st : ostore) (l : list N) (cls : nat)
 | ORetry (cls : nat)
 | OSend (cls attempts : nat).
@@ -180,8 +210,24 @@ Definition model_out (c : vcase) : vout :=
   | CFin f1 f2 f3 init cdi0 index _ _ _ =>
       let '(st1, v1, k) := finish_with_errors f1 f2 f3 (mkVol 0 0 cdi0 0 false 1 0) index (store_of init) in
       OFin (enc_store st1) (cdi v1) k
+  | CQCfg maxint ncpu q b _ =>
+      let '(be, bf, bmin, bmax) := b in OQCfg (newQueueBatchConfig maxint ncpu (qcfg_of q) (mkBConfig be bf bmin bmax))
+  | CQKind sg ow q _ => OQKind (queue_of sg ow (qcfg_of q))
   | CDone pieces _ => ORetry (outcome_code (combine_outcomes (map outcome_of_code pieces)))
   | CSend rs stop tail _ _ =>
       let '(e, k) := send_model (map attempt_of rs) stop (send_end_of tail) 0 in
       OSend (outcome_code (outcome_of_send e)) k
   end.
+
+(* ---- the property's clauses checked on the OBSERVED behaviour only (C01/Checker.v; sound by Proofs8.v) ---- *)
+Definition oinc_of (p : (list opcode * option nat) * iobs) : oinc :=
+  let '((sc, _), (d, pk, _, rs, st)) := p in (map op_of sc, d || pk, rs, st).
+
+Definition prop_verdict (c : vcase) : nat :=
+  match c with
+  | CHist _ _ _ h obs => obs_verdict (map oinc_of (combine h obs)) [] None
+  | CHistFrom _ _ _ _ h obs => obs_verdict (map oinc_of (combine h obs)) [] None
+  | _ => 0
+  end.
+
+Definition prop_ok (c : vcase) : bool := Nat.eqb (prop_verdict c) 0.
